@@ -60,10 +60,12 @@ def run_query(I, s, describe=False, max_results=64, evaluate=True):
     if r.variant != 'Ok': return out
     tree = r.items[0]; out.tree = tree
     if not evaluate: return out
-    ch = I.call("Tree::<Syntax, u32, u32>::children", [VRef(Cell(tree), [])])
     descs = Cell(coll.vec([]))
     db = I.path_state.get('dbref') or VRef(Cell(VObj('db')), [])
-    q = VStruct('query::Query', [VStruct('eval::Context', []), VRef(Cell(s), []), db, ch, VStruct('query::Options', [VBool(describe)]), VRef(descs, [])])
+    # the Query is built by the crate's own `query::query` (so whatever state it carries is the crate's)
+    QUERY = rt.find_fn(I, 'query', contains='Parsed', nargs=4)
+    parsed = VStruct('query::Parsed', [VRef(Cell(s), []), tree])
+    q = I.run_body(QUERY, [VRef(Cell(parsed), []), db, VStruct('query::Options', [VBool(describe)]), VRef(descs, [])])
     qc = Cell(q)
     for _ in range(max_results):
         x = I.call("<Query<'_> as Iterator>::next", [VRef(qc, [])])
